@@ -141,3 +141,7 @@ _MIRI_STEP = dict(
 )
 CHECKS["C21"]["post_steps"] = [_MIRI_STEP]
 CHECKS["C21"]["note"] += " Sanitizer step: Miri (undefined-behaviour interpreter) over the unsafe array/byte-vector codecs and the string escaper, leak checking off."
+
+reg("C08", "rv-auth", "exploration", "reference access-rule evaluator vs observed authorization outcome",
+    "Random access-rule trees up to the validation limits (depth 8, 64 nodes) over fungible / non-fungible / signature badges, with proof placements steered to witnesses and near-misses (amount minus one unit, sum-reaches-but-no-single-proof, exactly k-1 of count-of) and all auth-zone instructions, are attached to 19 vehicles (resource roles, role-assignment and metadata calls with owner fallback, accounts with OwnerRole = R, VERIFY_PARENT assertions flat and nested); authorization must pass iff an independent evaluator of the documented semantics says the applicable rule is satisfied (both directions verdict-bearing).",
+    _LEDGER_NOTE + " Package function auth and assert_access_rule from a custom blueprint are not covered (VERIFY_PARENT is the explicit-assertion vehicle).", "DESIGN.md §4 C08")
